@@ -134,6 +134,20 @@ func runC15(c *Ctx) {
 				if a.Truth && allowed(isUnavailPred(info, a.E, errObj)) {
 					return true
 				}
+				// true edge of a disjunction of allowed predicates: A || B
+				if a.Truth {
+					var allOr func(e ast.Expr) bool
+					allOr = func(e ast.Expr) bool {
+						e = ast.Unparen(e)
+						if be, ok := e.(*ast.BinaryExpr); ok && be.Op == token.LOR {
+							return allOr(be.X) && allOr(be.Y)
+						}
+						return allowed(isUnavailPred(info, e, errObj))
+					}
+					if be, ok := ast.Unparen(a.E).(*ast.BinaryExpr); ok && be.Op == token.LOR && allOr(be) {
+						return true
+					}
+				}
 				// false edge of a conjunction of negated allowed predicates: !A && !B is false => A || B
 				if !a.Truth {
 					conj := flattenAnd(a.E)
